@@ -16,6 +16,14 @@ fn main() {
     if args.is_empty() {
         usage();
     }
+    if args[0] == "--c19-child" && args.len() == 3 {
+        // internal: phase F of the C19 check (the history alone in a fresh process)
+        let job: vharness::engines::tree::det::ChildJob = serde_json::from_slice(&std::fs::read(&args[1]).expect("input")).expect("job");
+        std::panic::set_hook(Box::new(|_| {}));
+        let t = vharness::engines::tree::det::child_transcript(job);
+        std::fs::write(&args[2], serde_json::to_vec(&t).unwrap()).expect("output");
+        return;
+    }
     let id = args[0].clone();
     let mut tier = match std::env::var("VERIF_TIER").as_deref() {
         Ok("thorough") => Tier::Thorough,
